@@ -491,3 +491,87 @@ class _InlineLocal(ast.NodeTransformer):
 
 
 _STMT_KINDS = {"hoist-call": _Hoist, "split-assert": _SplitAssert, "inline-local": _InlineLocal}
+
+
+class _SwapIndependent(ast.NodeTransformer):
+    """two adjacent call-free assignments to different plain names, neither reading the other's target, change places"""
+
+    def __init__(self):
+        self.n = 0
+
+    def generic_visit(self, node):
+        node = super().generic_visit(node)
+        for field in ("body", "orelse", "finalbody"):
+            b = getattr(node, field, None)
+            if isinstance(b, list) and len(b) >= 2 and isinstance(b[0], ast.stmt) and not isinstance(node, ast.ClassDef):
+                i = 0
+                while i + 1 < len(b):
+                    a_, b_ = b[i], b[i + 1]
+                    ok = all(isinstance(x, ast.Assign) and len(x.targets) == 1 and isinstance(x.targets[0], ast.Name) and _call_free(x.value) for x in (a_, b_))
+                    if ok:
+                        ta, tb = a_.targets[0].id, b_.targets[0].id
+                        na = {n.id for n in ast.walk(a_.value) if isinstance(n, ast.Name)}
+                        nb = {n.id for n in ast.walk(b_.value) if isinstance(n, ast.Name)}
+                        ok = ta != tb and ta not in nb and tb not in na
+                    if ok:
+                        b[i], b[i + 1] = b_, a_
+                        self.n += 1
+                        i += 2
+                    else:
+                        i += 1
+        return node
+
+
+_STMT_KINDS["swap-independent"] = _SwapIndependent
+
+
+class _DedentElse(ast.NodeTransformer):
+    """`if c: ...; return x  else: B`  ->  `if c: ...; return x` followed by B (the else of a branch that always leaves)"""
+
+    def __init__(self):
+        self.n = 0
+
+    def generic_visit(self, node):
+        node = super().generic_visit(node)
+        for field in ("body", "orelse", "finalbody"):
+            b = getattr(node, field, None)
+            if isinstance(b, list) and b and isinstance(b[0], ast.stmt) and not isinstance(node, ast.ClassDef):
+                out = []
+                for st in b:
+                    if isinstance(st, ast.If) and st.orelse and st.body and isinstance(st.body[-1], (ast.Return, ast.Raise, ast.Continue, ast.Break)):
+                        rest = st.orelse
+                        st.orelse = []
+                        out.append(st)
+                        out.extend(rest)
+                        self.n += 1
+                    else:
+                        out.append(st)
+                setattr(node, field, out)
+        return node
+
+
+_STMT_KINDS["dedent-else"] = _DedentElse
+
+
+class _NestAfterReturn(ast.NodeTransformer):
+    """`if c: ...; return x` followed by B  ->  `if c: ...; return x  else: B`"""
+
+    def __init__(self):
+        self.n = 0
+
+    def generic_visit(self, node):
+        node = super().generic_visit(node)
+        for field in ("body", "orelse", "finalbody"):
+            b = getattr(node, field, None)
+            if isinstance(b, list) and b and isinstance(b[0], ast.stmt) and not isinstance(node, (ast.ClassDef, ast.Module)):
+                for i, st in enumerate(b):
+                    if isinstance(st, ast.If) and not st.orelse and st.body and isinstance(st.body[-1], (ast.Return, ast.Raise)) and i + 1 < len(b) \
+                            and not any(isinstance(x, (ast.FunctionDef, ast.ClassDef)) for x in b[i + 1:]):
+                        st.orelse = b[i + 1:]
+                        del b[i + 1:]
+                        self.n += 1
+                        break
+        return node
+
+
+_STMT_KINDS["nest-after-return"] = _NestAfterReturn
